@@ -21,6 +21,7 @@ import (
 
 // slowWriting is the write-reset policy with a user callback that takes its time on reads.
 type slowWriting struct {
+	keepOnUpdate bool // creation-only policy: an update keeps the deadline as well
 	ttl   time.Duration
 	seed  uint64
 	ctr   atomic.Uint64
@@ -30,6 +31,9 @@ type slowWriting struct {
 
 func (s *slowWriting) ExpireAfterCreate(e otter.Entry[int, int]) time.Duration { return s.ttl }
 func (s *slowWriting) ExpireAfterUpdate(e otter.Entry[int, int], old int) time.Duration {
+	if s.keepOnUpdate {
+		return e.ExpiresAfter()
+	}
 	return s.ttl
 }
 func (s *slowWriting) ExpireAfterRead(e otter.Entry[int, int]) time.Duration {
@@ -49,7 +53,7 @@ func runC03Setter(seed uint64) (violation string, rounds, racingReads int64) {
 	r := core.NewRng(seed)
 	clk := &phaseClock{tick: make(chan time.Time)}
 	clk.now.Store(1_000_000_000)
-	calc := &slowWriting{ttl: time.Duration(1+r.Intn(100)) * time.Hour, seed: seed, perM: []int{100, 400, 900}[r.Intn(3)]}
+	calc := &slowWriting{keepOnUpdate: r.Chance(1, 2), ttl: time.Duration(1+r.Intn(100)) * time.Hour, seed: seed, perM: []int{100, 400, 900}[r.Intn(3)]}
 	o := &otter.Options[int, int]{Clock: clk, ExpiryCalculator: calc, Executor: func(fn func()) { fn() }}
 	if r.Chance(1, 2) {
 		o.MaximumSize = 100
@@ -97,6 +101,22 @@ func runC03Setter(seed uint64) (violation string, rounds, racingReads int64) {
 				}
 			}(g)
 		}
+		updaters := 0
+		if calc.keepOnUpdate {
+			updaters = r.Intn(3)
+		}
+		var lastVal atomic.Int64
+		lastVal.Store(int64(v))
+		for g := 0; g < updaters; g++ {
+			wg.Add(1)
+			go func(g int) {
+				defer wg.Done()
+				for i := 0; i < 50 && !stop.Load(); i++ {
+					nv := 1_000_000*(round+1) + g*1000 + i
+					c.Set(k, nv) // creation-only policy: the update keeps whatever deadline the entry has
+				}
+			}(g)
+		}
 		ready.Wait()
 		c.SetExpiresAfter(k, short)
 		for i := 0; i < r.Intn(20); i++ {
@@ -115,8 +135,8 @@ func runC03Setter(seed uint64) (violation string, rounds, racingReads int64) {
 		// the clock reaches the deadline SetExpiresAfter set
 		clk.now.Store(want)
 		if got, ok := c.GetIfPresent(k); ok {
-			return fmt.Sprintf("round %d: SetExpiresAfter(%d, %d) returned at clock %d while %d readers were reading the key (write-reset policy: reads keep the deadline); the clock has reached %d = that deadline and GetIfPresent still returns %d (ExpiresAtNano was %d after the calls returned: the override was undone)",
-				round, k, short, t1, readers, want, got, e.ExpiresAtNano), rounds, racingReads
+			return fmt.Sprintf("round %d: SetExpiresAfter(%d, %d) returned at clock %d while %d readers (and %d updaters, creation-only policy: %v) were using the key (reads - and such updates - keep the deadline); the clock has reached %d = that deadline and GetIfPresent still returns %d (ExpiresAtNano was %d after the calls returned: the override was undone)",
+				round, k, short, t1, readers, updaters, calc.keepOnUpdate, want, got, e.ExpiresAtNano), rounds, racingReads
 		}
 		for kk, vv := range c.All() {
 			if kk == k {
